@@ -293,11 +293,63 @@ def r4_source_untouched(ctx):
   ctx.check(R, len(c) >= 1 and all([ast.unparse(a) for a in x.args] == ['self.float_model'] for x in c), qc.node, qc.module, 'ModelModifier(self.float_model)', 'the modifier must be given the float model')
 
 
+def r8_signature_outputs_table(ctx):
+  """ModelModifier._update_signature_outputs on label models: after graph
+  outputs were replaced, every signature's output entries name the replacement
+  of the tensor they named before - looked up in the signature's OWN subgraph -
+  and nothing else changes (inputs, other signatures, models without
+  signatures)."""
+  from sa import absint  # pylint: disable=g-import-not-at-top
+  from sa.consteval import Obj  # pylint: disable=g-import-not-at-top
+  R = 'C02.R8'
+  rs = ctx.rule(R, 'signature outputs follow replaced graph outputs, per signature and subgraph (table)', floor=1)
+  f = ctx.repo.func('model_modifier:ModelModifier._update_signature_outputs')
+  ctx.instance(R)
+  TM = lambda name, idx: Obj('x:TensorMapT', {'name': name, 'tensorIndex': idx})
+  cases = {
+      'one signature, one output replaced': ([[3, 5]], [[3, 9]], [(0, [('a', 3), ('b', 5)], [('i', 0)])], [[('a', 3), ('b', 9)]]),
+      'two signatures on two subgraphs with the SAME tensor ids': ([[3], [3]], [[7], [3]], [(0, [('a', 3)], [('i', 0)]), (1, [('a', 3)], [('i', 0)])], [[('a', 7)], [('a', 3)]]),
+      'second subgraph replaced only': ([[2, 4], [4, 2]], [[2, 4], [8, 2]], [(1, [('p', 2), ('q', 4)], [('i', 1)]), (0, [('p', 2), ('q', 4)], [('i', 1)])], [[('p', 2), ('q', 8)], [('p', 2), ('q', 4)]]),
+      'outputs listed in another order than the signature': ([[1, 2]], [[6, 7]], [(0, [('z', 2), ('y', 1)], [])], [[('z', 7), ('y', 6)]]),
+      'old and new ids overlap': ([[1, 2]], [[2, 5]], [(0, [('y', 1), ('z', 2)], [])], [[('y', 2), ('z', 5)]]),
+      'no signatures': ([[1]], [[4]], None, None),
+  }
+  rs.exhaustive = True
+  for cname, (orig, new, sigs, want) in cases.items():
+    sgs = [Obj('x:SubGraphT', {'outputs': list(o), 'inputs': [0]}) for o in new]
+    sdefs = None if sigs is None else [Obj('x:SignatureDefT', {'subgraphIndex': g, 'signatureKey': f's{n}', 'outputs': [TM(a, b) for a, b in outs], 'inputs': [TM(a, b) for a, b in ins]})
+                                          for n, (g, outs, ins) in enumerate(sigs)]
+    model = Obj('x:ModelT', {'subgraphs': sgs, 'signatureDefs': sdefs})
+    it = absint.Interp(ctx.repo, ctx.ev)
+    o = it.outcomes(f, [Obj('model_modifier:ModelModifier', {}), model, [list(x) for x in orig]], copy_args=False)
+    if len(o) != 1 or o[0].kind != 'return':
+      ctx.check(R, False, f.node, f, cname, f'not decided: {[x.short()[:100] for x in o]}')
+      continue
+    if sigs is None:
+      ctx.check(R, model.fields['signatureDefs'] is None and [s.fields['outputs'] for s in sgs] == [list(x) for x in new], f.node, f, cname, 'a model without signatures must be left alone')
+      continue
+    got = [[(t.fields['name'], t.fields['tensorIndex']) for t in s.fields['outputs']] for s in sdefs]
+    ctx.check(R, got == want, f.node, f, f'{cname}: {got}', f'signature outputs must become {want}')
+    ins_ok = all([(t.fields['name'], t.fields['tensorIndex']) for t in s.fields['inputs']] == list(sigs[n][2]) for n, s in enumerate(sdefs))
+    ctx.check(R, ins_ok and [s.fields['outputs'] for s in sgs] == [list(x) for x in new], f.node, f, cname, 'signature inputs and the graph outputs themselves must not change')
+  # the update runs on every path of modify_model before the model is serialised (either path)
+  mm = ctx.repo.func('model_modifier:ModelModifier.modify_model')
+  ctx.instance(R)
+  g = cfgmod.build(mm.node)
+  upd = {n.id for n in g.nodes if any(common.call_name(c).endswith('_update_signature_outputs') for c in n.calls())}
+  ser = [n for n in g.nodes if any(common.call_name(c).endswith(('_serialize_large_model', '_serialize_small_model')) for c in n.calls())]
+  ok = bool(upd) and len(ser) >= 2 and all(g.every_path_passes(g.entry.id, s.id, upd) for s in ser)
+  ctx.check(R, ok, mm.node, mm, 'update before both serialisations', 'a serialisation path can be reached without retargeting the signature outputs')
+  perf = [n for n in g.nodes if any(common.call_name(c).endswith('transform_graph') for c in n.calls())]
+  ctx.check(R, len(perf) == 1 and all(g.every_path_passes(g.entry.id, u, {perf[0].id}) for u in upd), mm.node, mm, 'update after the graph was transformed', 'signature outputs must be retargeted after the transformation, from outputs captured before it')
+
+
 def run(ctx):
   r1_frame(ctx)
   r2_rewiring(ctx)
   r3_io_coupdate(ctx)
   r4_source_untouched(ctx)
+  r8_signature_outputs_table(ctx)
   shared.rule_performer_translation(ctx, 'C02.R5')
   shared.rule_graph_rewrite_simulation(ctx, 'C02.R7', 'graph rewriting on label graphs: only the listed consumers and (iff covered) the graph outputs are rewired; original operators keep their order and operands; exactly one new operator and tensor per insertion')
   from sa.rules import c19  # pylint: disable=g-import-not-at-top
